@@ -35,6 +35,8 @@ var faultSites = []string{
 	"sign-error", "domain-31-bytes", "domain-33-bytes", "data-31-bytes",
 	// every entry from the position to the end of the batch carries the same unusable input
 	"domain-31-bytes-run", "data-31-bytes-run",
+	// an attestation request that lacks a part, or is absent from the list, at the position
+	"entry-no-target", "entry-no-source", "entry-no-data", "entry-no-id", "entry-nil",
 	// two wrong lengths that add up to the right total
 	"data-31-domain-33-bytes", "data-28-domain-36-bytes", "data-33-domain-31-bytes",
 }
@@ -50,6 +52,10 @@ func siteApplies(site, kind string, size int) bool {
 		return kind == "gen" || kind == "multi"
 	case "data-31-domain-33-bytes", "data-28-domain-36-bytes", "data-33-domain-31-bytes":
 		return kind == "gen" || kind == "multi"
+	case "entry-no-target", "entry-no-source", "entry-no-data", "entry-no-id":
+		return kind == "att" || kind == "atts"
+	case "entry-nil":
+		return kind == "atts"
 	case "data-31-bytes-run":
 		return kind == "multi" && size >= 3
 	case "domain-31-bytes-run":
@@ -230,6 +236,8 @@ func runFaultMatrix(t *testing.T, rc *RunCtx) {
 		whole = true
 	case "sign-error":
 		plan.Set("sign", kn, "error")
+	case "entry-no-target", "entry-no-source", "entry-no-data", "entry-no-id", "entry-nil":
+		e.Malformed = strings.TrimPrefix(fc.Site, "entry-")
 	case "domain-31-bytes":
 		e.Domain = e.Domain[:31]
 	case "domain-33-bytes":
@@ -315,7 +323,7 @@ func runFaultMatrix(t *testing.T, rc *RunCtx) {
 	}
 	// Reach: the planned fault must actually have fired (except input-shaped faults).
 	switch fc.Site {
-	case "sealed-account", "relocked-account-no-passphrases", "record-wrong-length", "record-undecodable", "record-empty", "record-one-byte", "store-closed", "domain-31-bytes", "domain-33-bytes", "data-31-bytes", "domain-31-bytes-run", "data-31-bytes-run",
+	case "sealed-account", "relocked-account-no-passphrases", "entry-no-target", "entry-no-source", "entry-no-data", "entry-no-id", "entry-nil", "record-wrong-length", "record-undecodable", "record-empty", "record-one-byte", "store-closed", "domain-31-bytes", "domain-33-bytes", "data-31-bytes", "domain-31-bytes-run", "data-31-bytes-run",
 		"data-31-domain-33-bytes", "data-28-domain-36-bytes", "data-33-domain-31-bytes":
 		rc.Stats.Inc("fault_input:"+fc.Site, 1)
 	default:
